@@ -38,9 +38,9 @@ def _case(t):
             x = mutate.mutate(corpus.read(src[1]), fixed_rng(PROP, 'mut:%s:%d' % (src[1], src[2])))
         elif kind == 'inject':
             base = corpus.read(src[1])
-            if src[1] in ('cpp/align-330.cpp', 'sql/mysql.sqc') or any(
+            if src[1] in ('cpp/align-330.cpp', 'sql/mysql.sqc', 'oc/available.m') or any(
                     t.kind == 'comment' and t.text.startswith('//') and ('\n' in t.text or '\r' in t.text) for t in lex.lex(base, lang)):
-                # files with a listed default-config finding (C02-008/010) or a backslash-spliced '//' comment (C03-001) are not re-judged here
+                # files with a listed default-config finding (C02-008/010, C03-004 '@available') or a backslash-spliced '//' comment (C03-001) are not re-judged here
                 return (cid, 'unclean-input', [], [], False, None)
             if b'\x00' in base or base[:2] in (b'\xff\xfe', b'\xfe\xff') or b'INDENT-O' in base or b'asm' in base or b'<#' in base \
                     or not tokoracle.well_lexed(lex.lex(base, lang)):
